@@ -435,10 +435,64 @@ func (g *FnGen) applyContract(fc *FuncContract, pc *PkgContracts, c *ssa.CallCom
 			bindRes(i, v)
 		}
 	}
-	for _, en := range fc.Ensures {
+	for k, en := range fc.Ensures {
+		// a postcondition with a recorded (unrepaired) finding is known to be false for some inputs: a caller may rely on
+		// it only for the input class the finding does not cover (its `except`), and not at all when there is none
+		if pc != nil {
+			if skip, guards := knownClauseGuards(pc.PkgPath, fc.Name, en.Label, k); skip {
+				g.note("callee postcondition with a recorded finding is not assumed at the call: " + fc.Name + " / " + en.Src)
+				continue
+			} else if len(guards) > 0 {
+				conds := []string{}
+				for _, gx := range guards {
+					e, err := ParseExpr(gx)
+					if err != nil {
+						g.unsupported("known finding of %s: bad except %q", fc.Name, gx)
+					}
+					conds = append(conds, env.trBool(e))
+				}
+				g.note("callee postcondition with a recorded finding is assumed only under its residual condition: " + fc.Name + " / " + en.Src)
+				g.assumeHere(fmt.Sprintf("(=> (and %s) %s)", strings.Join(conds, " "), post.trBool(en.E)))
+				continue
+			}
+		}
 		g.assumeHere(post.trBool(en.E))
 	}
 	return result
+}
+
+var knownClauseCache map[string][]KnownFinding
+
+// knownClauseGuards: recorded findings (status known) against a postcondition of the callee: skip = some finding has no
+// residual condition; otherwise the residual conditions of all of them.
+func knownClauseGuards(pkgPath, fn, label string, ord int) (skip bool, guards []string) {
+	if knownClauseCache == nil {
+		knownClauseCache = map[string][]KnownFinding{}
+		if kf, err := loadKnown(); err == nil {
+			for _, f := range kf.Findings {
+				if f.Status != "known" {
+					continue
+				}
+				name := f.Obligation
+				if i := strings.LastIndex(name, "@"); i > 0 {
+					name = name[:i]
+				}
+				knownClauseCache[name] = append(knownClauseCache[name], f)
+			}
+		}
+	}
+	short := pkgPath[strings.LastIndex(pkgPath, "/")+1:]
+	key := fmt.Sprintf("%s.%s/post#%d", short, fn, ord)
+	if label != "" {
+		key = fmt.Sprintf("%s.%s/post:%s", short, fn, label)
+	}
+	for _, f := range knownClauseCache[key] {
+		if f.Except == "" {
+			return true, nil
+		}
+		guards = append(guards, f.Except)
+	}
+	return false, guards
 }
 
 // havocLoc havocs one assigns location (evaluated in the callee's pre-state env).
